@@ -266,6 +266,22 @@ func declFTy(pkg string, pr gProp) (FTy, bool) {
 	return out, ok
 }
 
+// declSchema translates a declared top-level schema; ok = false when a property type does not translate.
+func declSchema(pkg string, gs gSchema) (Schema, bool) {
+	out := Schema{Pkg: pkg, Name: gs.Name, Kind: gs.Kind}
+	if gs.Kind == "enum" {
+		return out, true
+	}
+	for _, pr := range gs.Props {
+		t, ok := declFTy(pkg, pr)
+		if !ok {
+			return Schema{}, false
+		}
+		out.Props = append(out.Props, Prop{JSON: pr.Name, Ty: t})
+	}
+	return out, true
+}
+
 func coqDeclPackage(p *gPackage, im *Img) (term string, extra bool) {
 	byKey := map[[2]string]Schema{}
 	for _, s := range im.Schemas {
@@ -324,11 +340,24 @@ func coqDeclPackage(p *gPackage, im *Img) (term string, extra bool) {
 	if p.Entity != nil {
 		extra = true
 	}
+	// the declared objects / oneofs / enums: built from the j5s declaration when all their property types translate
+	// (declFTy), else (a property declared in place, schemas an entity or a topic expands to) copied from the observed API
+	declared := map[string]gSchema{}
+	for _, gs := range p.Schemas {
+		declared[gs.Name] = gs
+	}
 	var others []string
 	for _, s := range im.Schemas {
-		if !method[[2]string{s.Pkg, s.Name}] {
-			others = append(others, coqSchema(s))
+		if method[[2]string{s.Pkg, s.Name}] {
+			continue
 		}
+		if gs, ok := declared[s.Name]; ok && s.Pkg == p.Pkg {
+			if src, ok := declSchema(p.Pkg, gs); ok {
+				others = append(others, coqSchema(src))
+				continue
+			}
+		}
+		others = append(others, coqSchema(s))
 	}
 	term = fmt.Sprintf("{| dp_pkg := %s; dp_services := [%s]; dp_topics := map (topic_of_source Strcase.to_camel) [%s]; dp_schemas := [%s] |}",
 		coqStr(p.Pkg), strings.Join(svcs, ";"), strings.Join(tops, ";"), strings.Join(others, ";\n    "))
